@@ -1195,6 +1195,60 @@ def oracle_expression(chk, text, name, ast, root_expr, ir, r, stats):
                         "input": text, "expression": name, "observed": atype_of(t),
                         "expected": "tight: both ends attained for a linear expression without "
                                     "repeated variables; corner values %s" % sorted(got)[:8]})
+    # tightness of `?:` with an independent, non-constant condition (`C05_tight_choice_independent`):
+    # single-occurrence branches over disjoint leaves, a condition over other leaves that the
+    # analysis did not fold and that attains both truth values
+    if t.which_type == "integer" and ast[0] == "choice":
+        cnd, tb, fb = ast[1], ast[2], ast[3]
+        seen = set()
+        cexpr = ann.get(id(cnd))
+        if linear_once(tb, seen) and linear_once(fb, seen) and cexpr is not None \
+                and not cexpr.type.boolean.has_field("value"):
+            cl = {}
+            collect_leaves(cnd, cl)
+            mn, mx = t.integer.minimum_value, t.integer.maximum_value
+            if not (set(cl) & seen) and mn != "-infinity" and mx != "infinity" and len(seen) <= 10:
+                cnames = sorted(cl)
+                cdoms = []
+                for n in cnames:
+                    a = cl[n]
+                    cdoms.append(leaf_values(a[1], r, True) if a[0] == "leaf"
+                                 else [False, True] if a[0] == "bleaf" else [0, 1, 7, 100, 127])
+                size = 1
+                for d in cdoms:
+                    size *= len(d)
+                truth = set()
+                if size <= 4096:
+                    for tup in itertools.product(*cdoms):
+                        try:
+                            truth.add(bool(py_eval(cnd, dict(zip(cnames, tup)), ann)))
+                        except (ValueError, KeyError):
+                            pass
+                        if len(truth) == 2:
+                            break
+                if len(truth) == 2:
+                    bl = {}
+                    collect_leaves(tb, bl)
+                    collect_leaves(fb, bl)
+                    bnames = sorted(bl)
+                    corners = []
+                    for n in bnames:
+                        vs = leaf_values(bl[n][1], r, False)
+                        corners.append([vs[0], vs[-1]])
+                    got = set()
+                    for tup in itertools.product(*corners):
+                        env = dict(zip(bnames, tup))
+                        got.add(py_eval(tb, env, ann))
+                        got.add(py_eval(fb, env, ann))
+                    stats["tight_choice_checked"] = stats.get("tight_choice_checked", 0) + 1
+                    if int(mn) not in got or int(mx) not in got:
+                        bad += 1
+                        chk.violation("input", {
+                            "input": text, "expression": name, "observed": atype_of(t),
+                            "expected": "tight: both ends attained for `c ? t : f` with single-occurrence "
+                                        "branches and an independent condition that is true for some "
+                                        "values and false for others; branch corner values %s"
+                                        % sorted(got)[:8]})
     return bad
 
 
@@ -1338,6 +1392,11 @@ def run_text(chk, r, batch, stats, text, lets, with_model, origin, oracle=True):
             want_gate = "ok" if not kinds else "err " + ",".join(kinds)
             batch.ask("TREE " + sexp(ast), "abs=%s cv=%s gate=%s" % (t, cv_of(root), want_gate),
                       {"input": text, "expression": name, "origin": origin}, "tree")
+            # the typing discipline of `C05_no_crash` (Model/ExprType.lean `tyOf`) agrees with
+            # the type the real front end assigned
+            batch.ask("TYOF " + sexp(ast), {"integer": "int", "boolean": "bool",
+                                            "enumeration": "enum"}.get(root.type.which_type, "?"),
+                      {"input": text, "expression": name, "origin": origin}, "tyof")
             if name in full_roots:
                 # whole tree: the calls the model emits for the generator's description of the
                 # expression (its own annotations) == the calls expected on the real annotations
@@ -1601,6 +1660,10 @@ CORPUS = [
     HEAD + "bits Foo:\n  0 [+8] UInt a0\n  let v0 = ($upper_bound(3) == 3)\n",
     HEAD + "bits Foo:\n  0 [+8] UInt a0\n  let v0 = (($lower_bound((a0 + 1)) == 1) && ($upper_bound((a0 * 2)) == 510))\n",
     HEAD + "bits Foo:\n  0 [+8] UInt a0\n  let v0 = ($upper_bound(((false && (a0 == 1)) ? a0 : 3)) == 255)\n",
+    # `?:` with an independent condition (C05_tight_choice_independent), nested conditions
+    HEAD + "bits Foo:\n  0 [+8] UInt a0\n  0 [+8] UInt a1\n  0 [+4] Int a2\n  0 [+1] Flag fl\n"
+           "  let v0 = (((a0 > 3) || fl) ? (a1 + 1) : (2 * a2))\n  let v1 = (fl ? (a0 * a1) : $max(a2, 3))\n"
+           "  let v2 = (((a0 + 1) > $upper_bound(a2)) ? (a1 - 7) : (a2 * 3))\n",
 ]
 
 
